@@ -117,6 +117,15 @@ def register(R):
                 len(done_set) == 1 and len(rel) == 1 and index_of(ft, rel[0]) < index_of(ft, done_set[0]))
             se = [e for e in ft if e.kind == 'lock' and e.name.endswith('CRTTransferCoordinator._lock')]
             out['failure_recorded_before_the_callbacks_run'] = B(len(se) >= 1 and index_of(ft, se[0]) < index_of(ft, rel[0]) if rel else False)
+            # ... and what is recorded is the construction error itself (so result() raises it)
+            raised = [e.extra['raised'] for e in ft if e.kind in ('ext', 'call') and e.extra.get('raised') is not None]
+            coords = [g.extra['env']['coordinator'] for g in gm if isinstance(g.extra['env'].get('coordinator'), Ref)]
+            okrec = False
+            if raised and coords:
+                v = c.new.obj(coords[0]).fields.get('_exception')
+                v = v.val if isinstance(v, Opt) and (v.is_none is False or z3.is_false(z3.simplify(v.is_none))) else v
+                okrec = v is raised[-1]
+            out['the_construction_error_is_what_the_future_will_raise'] = B(bool(okrec) or not coords)
         out['coordinator_tracked_for_shutdown'] = to_len(c.new, c.newf('_future_coordinators')) == to_len(c.old, c.oldf('_future_coordinators')) + 1
         return out
 
